@@ -26,9 +26,26 @@ def gen(rng, tier):
         if k % 10 == 9:
             yield FU.gen_raising_seq_case(rng)      # the heuristic raises after it has changed the object (queries issued before)
         elif k % 10 == 4:
-            # dummy arcs / vehicles of INFINITE cost (a natural "never use this" value): costs play no part in feasibility mode
-            case = FU.gen_form_case(rng, tier, heur_p=0.0, nmax=3)
+            # dummy arcs / vehicles of INFINITE cost (a natural "never use this" value): costs play no part in feasibility mode.
+            # Two thirds sequence-based; a customer loses its arcs from the depot so that the heuristic has something to add
+            case = FU.gen_form_case(rng, tier, forms=("seq", "seq", "arc", "path")[(k // 10) % 4:][:1], heur_p=0.0, nmax=3)
+            cust = [nd["name"] for nd in case["spec"]["nodes"][1:]]
+            if cust:
+                victim = rng.choice(cust)
+                case["spec"]["arcs"] = [a for a in case["spec"]["arcs"] if not (a[0] == "D" and a[1] == victim)]
+            if case["form"] == "seq":
+                case["V"] = max(1, case.get("V", 1))
+                for key in ("via", "skip_set_depot", "then_set_depot", "arcs_before_depot"):
+                    case.pop(key, None)
             case["inf_high_cost"] = True
+            yield case
+        elif k % 10 == 7:
+            # systematic: a sequence-based object assembled through its own API with the depot node first, queried, and only then told
+            # which node is the depot (set_depot on the node that already is first still installs the stay-at-depot move)
+            case = FU.gen_form_case(rng, tier, forms=("seq",), heur_p=0.0)
+            case["via"], case["skip_set_depot"], case["then_set_depot"] = "wrapper", True, True
+            case["arcs_before_depot"] = len(case["spec"]["arcs"])
+            case["V"], case["L"] = max(1, case.get("V", 1)), max(3, case.get("L", 3))
             yield case
         else:
             yield FU.gen_form_case(rng, tier, heur_p=0.45)
